@@ -119,7 +119,8 @@ impl Gen {
             self.make_prior(true, false);
             let f = self.pick(&["include", "exclude"]).to_string();
             let pat = match self.rng.gen_range(0..100) { 0..=24 => self.word(), 25..=39 => self.anyvar(), 40..=49 => Tm::Anon, 50..=64 => Tm::Cx("f".into(), vec![Tm::Anon]),
-                                                          65..=79 => { let v = self.anyvar(); Tm::Cx("g".into(), vec![v.clone(), v]) } 80..=89 => Tm::List(vec![Tm::Anon], Some(Box::new(Tm::Anon))), _ => self.small_int() };
+                                                          65..=74 => { let v = self.anyvar(); Tm::Cx("g".into(), vec![v.clone(), v]) } 75..=82 => self.cx(1), 83..=86 => self.list(1, true),
+                                                          87..=92 => Tm::List(vec![Tm::Anon], Some(Box::new(Tm::Anon))), _ => self.small_int() };
             let l = if self.rng.gen_bool(0.4) { self.anyvar() } else { self.list(1, true) };
             let o = if self.rng.gen_bool(0.8) { self.anyvar() } else { self.list(0, false) };
             (f, vec![pat, l, o])
@@ -150,7 +151,13 @@ impl Gen {
                 0..=59 => {
                     let with_fmt = self.rng.gen_bool(0.6);
                     let mut args = vec![];
-                    let n = if with_fmt { let f = self.pick(&FORMATS).to_string(); let k = f.matches("%s").count(); args.push(Tm::Atom(f)); k } else { self.rng.gen_range(1..=3) };
+                    let n = if with_fmt {
+                        let f = self.pick(&FORMATS).to_string(); let k = f.matches("%s").count();
+                        // one time in three the format string is reached through a variable
+                        if self.rng.gen_range(0..3) == 0 { let i = self.rng.gen_range(1..=self.nv); self.prior[i - 1] = Tm::Atom(f); let v = self.var(i); args.push(v); }
+                        else { args.push(Tm::Atom(f)); }
+                        k
+                    } else { self.rng.gen_range(1..=3) };
                     for _ in 0..n { let a = match self.rng.gen_range(0..100) { 0..=39 => self.word(), 40..=54 => self.small_int(), 55..=84 => self.anyvar(), 85..=92 => self.cx(0), _ => Tm::Atom("%s".into()) }; args.push(a); }
                     ("print".into(), args)
                 }
